@@ -1,15 +1,17 @@
 //! Deterministic simulation with fault injection for boa (see /verif/DESIGN.md).
 pub mod harness;
 pub mod js;
+pub mod kernels;
 pub mod rng;
 pub mod props {
     pub mod c07;
     pub mod c08;
     pub mod c09;
+    pub mod c10;
 }
 
 use harness::Prop;
 
 pub fn props() -> Vec<&'static Prop> {
-    vec![&props::c07::PROP, &props::c08::PROP, &props::c09::PROP]
+    vec![&props::c07::PROP, &props::c08::PROP, &props::c09::PROP, &props::c10::PROP]
 }
